@@ -196,7 +196,14 @@ class SeqRun(object):
             tags_status.add('C01')
 
         # ---- 5xx is never right ------------------------------------
-        if resp.status >= 500:
+        if resp.status >= 500 and op.get('defect') == 'unencodable':
+            # known finding (DESIGN 5.2): 500 instead of 400; the history
+            # goes on, the no-trace check below still applies
+            self.add({'C11'}, 'server-error-unencodable-text',
+                     'status %d for a lone surrogate in %s: %s' % (
+                         resp.status, kind, (resp.body or b'')[:200]),
+                     op, rbrief)
+        elif resp.status >= 500:
             self.add(tags_status | {'C15'}, 'server-error',
                      'status %d: %s' % (resp.status, (resp.body or b'')[:300]),
                      op, rbrief)
